@@ -27,6 +27,7 @@ func runC20(c *Ctx) {
 			c20SECS1Drop(c, 1, 0)
 		}
 		c20SECS1Faults(c)
+		c20SECS1AckDrop(c)
 	}
 	if only == "secs1" {
 		return
